@@ -134,6 +134,34 @@ def readLoopCap (F : Fmt) (newRule : Bool) (mode : Mode) (file : Bytes) (k cap :
 def readAllCap (F : Fmt) (newRule : Bool) (mode : Mode) (file : Bytes) (k cap : Nat) : Option (List Bytes) :=
   readLoopCap F newRule mode file k cap (file.length + 2) init
 
+/-! ### what the reader looks at when it stops (end-of-file test of fix a0fa304)
+
+`read_chunk` tests for a truncated entry at two places: (site 1) when it gives up because nothing more can be read,
+the chunks still pending (`temp_chunks` = the carried bytes and everything read since); (site 2) after the final
+chunk was delivered, the bytes of that chunk behind the delivered buffer (`chunk[buff.size:]`). -/
+
+def isBlank (b : Bytes) : Bool := b.all (fun x => x == NL || x == 13)
+
+/-- the bytes examined by the call of `read_chunk` made in state `s` -/
+def restOf (F : Fmt) (file : Bytes) (k : Nat) (s : St) : Bytes :=
+  match accumulate F true file k (file.length + 2) s.pos s.carry s.finished with
+  | none => s.carry ++ file.drop s.pos                                   -- site 1: the pending chunks
+  | some (chunk, _, fin) => if fin then chunk.drop (F.cutLen chunk) else []   -- site 2: behind the final buffer
+
+/-- `read_chunks` to the end: the bytes examined by the call that ends the iteration -/
+def readLoopRest (F : Fmt) (mode : Mode) (file : Bytes) (k : Nat) : Nat → St → Bytes
+  | 0, _ => []
+  | fuel+1, s =>
+    match readChunk F true mode file k s with
+    | none => restOf F file k s
+    | some (out, s') =>
+      if out.isEmpty then []
+      else if s'.finished then restOf F file k s
+      else readLoopRest F mode file k fuel s'
+
+def readAllRest (F : Fmt) (mode : Mode) (file : Bytes) (k : Nat) : Bytes :=
+  readLoopRest F mode file k (file.length + 2) init
+
 /-- `NumpyFileReader.read()`: the whole file at once -/
 def readWhole (F : Fmt) (file : Bytes) : Bytes :=
   if file.isEmpty then [] else
